@@ -39,6 +39,8 @@ func workerBodies(pi *pkgInfo, fd *ast.FuncDecl) []*ast.BlockStmt {
 		case *ast.Ident:
 			if t := pi.funcs[f.Name]; t != nil && t.Body != nil {
 				out = append(out, t.Body)
+			} else if lit := localFuncLit(fd, f.Name); lit != nil {
+				out = append(out, lit.Body)
 			}
 		case *ast.SelectorExpr:
 			for name, t := range pi.funcs {
@@ -49,6 +51,33 @@ func workerBodies(pi *pkgInfo, fd *ast.FuncDecl) []*ast.BlockStmt {
 			}
 		}
 		return false
+	})
+	return out
+}
+
+// localFuncLit: `name := func(…) {…}` (or `var name = func…`) inside fd
+func localFuncLit(fd *ast.FuncDecl, name string) *ast.FuncLit {
+	var out *ast.FuncLit
+	ast.Inspect(fd.Body, func(n ast.Node) bool {
+		switch t := n.(type) {
+		case *ast.AssignStmt:
+			for i, l := range t.Lhs {
+				if id, ok := l.(*ast.Ident); ok && id.Name == name && i < len(t.Rhs) {
+					if lit, ok := t.Rhs[i].(*ast.FuncLit); ok {
+						out = lit
+					}
+				}
+			}
+		case *ast.ValueSpec:
+			for i, id := range t.Names {
+				if id.Name == name && i < len(t.Values) {
+					if lit, ok := t.Values[i].(*ast.FuncLit); ok {
+						out = lit
+					}
+				}
+			}
+		}
+		return true
 	})
 	return out
 }
